@@ -19,7 +19,7 @@ def stepOp (t : T) (op : Json) : T × Json :=
     | [.str "getitem", k] =>
       (t, match t.getitem (key k) with | .ok v => Json.mkObj [("some", v)] | .error _ => jerr "KeyError")
     | [.str "len"] => (t, jnat t.len)
-    | [.str "items"] => (t, jlist (t.items.map fun (p, v) => jlist [jstrs p, v]))
+    | [.str "items"] => (t, jlist (t.itemsIter.map fun (p, v) => jlist [jstrs p, v]))
     | [.str "prefixes"] => (t, jlist (t.prefixes.map jstrs))
     | [.str "values"] => (t, jlist t.values)
     | [.str "lmpv", k] => (t, jopt (t.lmpv (key k)))
